@@ -7,9 +7,9 @@ VERIF = os.path.dirname(os.path.dirname(os.path.abspath(__file__)))
 CHECKS = {
     "C12": dict(
         level="model_checking", engine="M (MIR->SMT) + driver grid",
-        technique="SMT (cvc5/z3, bit-vectors + IEEE floats) over the MIR of the injection value closures; grid of source types through the real into_data_type with symbolic values; replay through the real injection",
-        text="Every scalar conversion kernel (Boolean/Integer/Float) is translated from the MIR of the current tree and the solver decides injectivity, refusal of lossy values, round trip and monotonicity for all 2^64 inputs (pairs: 2^128); the type-level wrappers are run concretely on a boundary grid of source types and the solver searches the whole source type for a value whose conversion leaves the returned type. Bounded by: scalar variants only, grid of source types.",
-        note="Trusted: lib/mir.py translation + callee table (validated on concrete points against the real injections every run), rustc's MIR printer, cvc5/z3. The type-level image of Integer -> Text is decided with the solvers' string theory (str.from_int) on a grid of source ranges. Outside: other ->Text/Bytes conversions, Date/Time kernels (chrono), composite liftings.",
+        technique="SMT (cvc5/z3, bit-vectors + IEEE floats) over the MIR of the injection value closures; grid of source types through the real into_data_type with symbolic values; chrono model (dates as integer tuples, chrono calls as callee models, Display / strftime formatters read from the MIR and encoded as character tuples over integer digit variables); replay through the real injection",
+        text="Every scalar conversion kernel (Boolean/Integer/Float) is translated from the MIR of the current tree and the solver decides injectivity, refusal of lossy values, round trip and monotonicity for all 2^64 inputs (pairs: 2^128); the type-level wrappers are run concretely on a boundary grid of source types and the solver searches the whole source type for a value whose conversion leaves the returned type. Part D: the Date <-> DateTime kernels are decided the same way over a chrono model (injective, lossy conversion refused, round trip, no panic), and the Date / Time / DateTime -> Text kernels are read as formatters from the MIR and the solver decides injectivity and order preservation of the rendering for every calendar-valid value of the years 1..9999. Bounded by: scalar and chrono variants only, grid of source types.",
+        note="Trusted: lib/mir.py translation + callee table (validated on concrete points against the real injections every run), rustc's MIR printer, cvc5/z3. The type-level image of Integer -> Text is decided with the solvers' string theory (str.from_int) on a grid of source ranges. The chrono model (lib/chrono.py) is chrono's documented contract and is validated on concrete values against the real conversions every run; an unknown formatter is inconclusive. Outside: Boolean / Float / Duration / Bytes -> Text, leap-second representation, years outside 1..9999, composite liftings.",
         design="3 C12"),
     "C18": dict(
         level="model_checking", engine="M (MIR->SMT) + driver replay",
@@ -20,7 +20,7 @@ CHECKS = {
     "C15": dict(
         level="model_checking", engine="M (MIR->SMT with combinator models) + driver replay",
         technique="SMT over the MIR of Hierarchy::get_key_value, its closures, is_suffix_of and From<Found>: symbolic map contents and lookup path vs. the documented rule; inductive step of the fold closure; replay on a real Hierarchy",
-        text="The lookup bodies are translated from the MIR of the current tree (closures inlined, std combinators modelled) and compared with the specification for every map of up to 3 (thorough: 4) entries with keys of 1-3 components over an unbounded alphabet and every lookup path; the fold step is checked inductively against the Zero/One/More counting invariant, which covers maps of any size for the suffix branch. The SQL-level clause is enumeration of negative programs through the real compiler (reported as such).",
+        text="The lookup bodies are translated from the MIR of the current tree (closures inlined, std combinators and slice indexing modelled) and compared with the specification for every map of up to 3 (thorough: 4) entries with keys of 1-3 components over an unbounded alphabet and every lookup path; the fold step is checked inductively against the Zero/One/More counting invariant, which covers maps of any size for the suffix branch. The SQL-level clause is enumeration of negative programs through the real compiler (reported as such).",
         note="Trusted: combinator models in lib/hof.py (validated on random concrete maps against the real Hierarchy every run), BTreeMap iterates in key order. A structural change the models do not cover makes the check inconclusive (exit 2), never passing.",
         design="3 C15"),
     "C13": dict(
@@ -30,15 +30,15 @@ CHECKS = {
         note="Trusted: extraction through the public API, additivity of Score (probed each run), identification of the applied derivation by a name-independent signature. Known finding: a panic in the SyntheticData rewriting of joins over aggregations.",
         design="3 C13, 2.4"),
     "C02": dict(
-        level="other", engine="T (rule automaton in SMT) + structural IR walk",
-        technique="SMT: inductive obligations over a symbolic row of the rule table extracted from the real setter (all trees by induction) + taint query over all labelings of each corpus tree; structural walk of returned relations",
-        text="Rule-level formulation for relation trees of any depth: the inductive obligations (protected leaf never clean; clean output needs clean inputs except the PUP->DP reduce; Public needs Public; only Reduce makes DP) are decided by the solver over the extracted rule table for all 4 configurations; per tree, the solver shows no consistent labeling puts a clean label above a tainted protected leaf; the relations actually returned by rewrite_with_differential_privacy are walked structurally (every path to a protected table crosses an aggregation followed by a noise map). The last part is enumeration, stated as such.",
+        level="other", engine="T (rule automaton in SMT) + structural IR walk + S (SymRel) for zero-cost results",
+        technique="SMT: inductive obligations over a symbolic row of the rule table extracted from the real setter (all trees by induction) + taint query over all labelings of each corpus tree; structural walk of returned relations; SMT over the symbolic execution of relations returned with a zero-cost event on D and on D minus a unit (SQLite replay)",
+        text="Rule-level formulation for relation trees of any depth: the inductive obligations (protected leaf never clean; clean output needs clean inputs except the PUP->DP reduce; Public needs Public; only Reduce makes DP) are decided by the solver over the extracted rule table for all 4 configurations; per tree, the solver shows no consistent labeling puts a clean label above a tainted protected leaf; the relations actually returned by rewrite_with_differential_privacy are walked structurally (every path to a protected table crosses an aggregation followed by a noise map). That walk is enumeration, stated as such. Relations returned with a zero-cost event (key-only reduces over public keys) are executed symbolically on every database of <= 2 rows per table and on the same database without the rows of a unit: the results must be equal (part S).",
         note="Trusted: extraction through the public API; independent resolution of protected tables by declared path; noise map = Map with a Random function.",
         design="3 C02, 2.4"),
     "C11": dict(
         level="model_checking", engine="K (Kani) + M (MIR composition lemmas) + driver grid",
         technique="Kani/CBMC proof harnesses over the compiled Intervals<i64> (inductive step from arbitrary valid states); SMT composition lemmas over the MIR of union/intersection/is_subset_of/contains with the leaf contracts Kani proves; SMT search for a value outside the result of the real lattice operations on a grid of type pairs",
-        text="Interval algebra: each leaf operation is proved by Kani for every valid pre-state of <= 2 intervals and every argument (sorted/disjoint/capacity invariant re-established, no point lost, exact below capacity, capacity crossing included); the composite operations are decided from their MIR for operands of up to 2 (thorough: 3) intervals. DataType level: for ~700 type pairs on a boundary grid (scalars, optionals, structs, lists and sets with symbolic values of length <= 2) the solver searches every value of the operands for one outside the real is_subset_of / super_union / super_intersection result (cross-variant membership through the MIR-translated injection kernels).",
+        text="Interval algebra: each leaf operation is proved by Kani for every valid pre-state of <= 2 intervals and every argument (sorted/disjoint/capacity invariant re-established, no point lost, exact below capacity, capacity crossing included); the composite operations are decided from their MIR for operands of up to 2 (thorough: 3) intervals. DataType level: for ~700 type pairs on a boundary grid (scalars, optionals, structs, enumerations, lists and sets with symbolic values of length <= 2) the solver searches every value of the operands for one outside the real is_subset_of / super_union / super_intersection result (cross-variant membership through the MIR-translated injection kernels).",
         note="Trusted: Kani/CBMC; MIR translation, combinator and contract stubs; grid of type pairs is enumeration (stated). Known findings: Struct::super_union with different field sets; literal `contains` for cross-variant pairs.",
         design="3 C11, 2.2"),
     "C10": dict(
@@ -81,11 +81,11 @@ CHECKS = {
         level="translation_validation", engine="S (SymRel) + SQLite replay",
         technique="SMT (non-linear real arithmetic): the DP-rewritten relation with every Box-Muller term replaced by 0 and the original relation are executed symbolically on the same database (enumerated key layouts, symbolic in-range measures); group sets and COUNT/SUM/AVG are compared; SQLite replay with RANDOM() overridden",
         text="For each aggregation query (ungrouped or grouped by public keys) the neutralised DP relation and the original relation are compared on every database of <= 2/3 rows per table whose measures lie in the declared ranges and whose units stay within the multiplicity the clip bound allows: original groups must be present with equal COUNT/SUM/AVG (a NULL aggregate of an empty group may become 0) and extra groups must be empty.",
-        note="Trusted: structural neutralisation of the noise term; lib/symrel.py semantics over reals; SQLite-confirmed reports only (tolerance 1e-6). VARIANCE / STDDEV are compared with the population or the sample moment of the data. A difference that only the final clamp to the declared range introduces is asked separately (known finding for outer joins).",
+        note="Trusted: structural neutralisation of the noise term; lib/symrel.py semantics over reals; SQLite-confirmed reports only (tolerance 1e-6). VARIANCE / STDDEV are compared with the population or the sample moment of the data. A difference that only the final clamp to the declared range introduces is asked separately (known finding for outer joins). DISTINCT aggregates are in the catalogue; the DP compilation drops their de-duplication (known finding, keyed by aggregate function).",
         design="3 C09"),
     "C04": dict(
         level="translation_validation", engine="S (SymRel) + M (gaussian_tau glue) + driver",
-        technique="SMT (non-linear real arithmetic): the key-release sub-relation emitted by the real compiler (contribution cap by random rank, distinct count per key, noise, threshold) is executed symbolically with the random rank as a free injective assignment, over enumerated key layouts; the tau literal and the recorded (epsilon, delta) are re-derived from dp_event::gaussian_tau by the driver",
+        technique="SMT (non-linear real arithmetic): the key-release sub-relation emitted by the real compiler (contribution cap by random rank, distinct count per key, noise, threshold) is executed symbolically with the random rank as a free injective assignment, over enumerated key layouts; the tau literal and the recorded (epsilon, delta) are re-derived from dp_event::gaussian_tau by the driver; gaussian_tau itself is translated from its MIR (Phi^-1, powf, sqrt, gaussian_noise uninterpreted) and decided equal to 1 + noise * Phi^-1((1-delta)^(1/Cu)) for all parameters",
         text="For grouped queries whose keys are not public: under every assignment of the random ranks each privacy unit contributes to at most max_privacy_unit_groups released keys, each unit is counted once per key, a key held by a single unit is released only if its noise draw exceeds tau - 1 with tau the literal reproduced by gaussian_tau on (epsilon, delta) * share, the event carries exactly that share and the remaining share goes to the aggregates, and keys of the outer query are closed under the release. Databases of <= 3 rows per table, 12 key layouts sampled in quick and all in thorough.",
         note="Trusted: lib/symrel.py semantics, the structural recognition of cap/distinct/noise/threshold nodes (unrecognised -> inconclusive), the textbook claim that tau-thresholding with this tau is (eps, delta)-DP.",
         design="3 C04"),
